@@ -167,11 +167,13 @@ def validate(spec, ev_path, workdir, nshards=12, want_defs=False):
     return {"mismatches": mism, "unspec": unspec, "summary": tot, "defs": defs}
 
 
-def run_tlc_mc(module, cfg, workdir, workers=8, timeout=3000, extra=None, simulate=None):
+def run_tlc_mc(module, cfg, workdir, workers=8, timeout=3000, extra=None, simulate=None, coverage=False):
     """Model-check spec/<module>.tla with spec/<cfg>.cfg; returns stats + coverage, raises on violation."""
     meta = os.path.join(workdir, "meta_mc_" + cfg)
-    cmd = ["tlc", "-workers", str(workers), "-metadir", meta, "-cleanup", "-noGenerateSpecTE", "-coverage", "1",
+    cmd = ["tlc", "-workers", str(workers), "-metadir", meta, "-cleanup", "-noGenerateSpecTE",
            "-config", os.path.join(SPEC, cfg + ".cfg")]
+    if coverage or os.environ.get("VERIF_COVERAGE"):
+        cmd += ["-coverage", "1"]      # per-action counts (slow); used by the self-diagnosis runs
     if simulate:
         cmd += ["-simulate", simulate[0], "-depth", str(simulate[1])]
     cmd += (extra or []) + [os.path.join(SPEC, module + ".tla")]
@@ -202,7 +204,7 @@ def run_tlc_mc(module, cfg, workdir, workers=8, timeout=3000, extra=None, simula
     if mv:
         res["violated"] = mv.group(0)
     cov = {}
-    for mm in re.finditer(r"^<(\w+) line \d+, col \d+ to line \d+, col \d+ of module (\w+)>: (\d+):(\d+)", out, re.M):
+    for mm in re.finditer(r"^<(\w+) line \d+, col \d+ to line \d+, col \d+ of module (\w+)[^>]*>: (\d+):(\d+)", out, re.M):
         cov[mm.group(1)] = cov.get(mm.group(1), 0) + int(mm.group(4))
     res["action_coverage"] = cov
     res["stdout_tail"] = "\n".join(out.splitlines()[-25:])
